@@ -28,7 +28,7 @@ def kinds_of(shape):
     n, f, fp, pat = shape["n"], shape["fault"], shape["fpos"], shape["pat"]
     out = []
     for j in range(1, n + 1):
-        if f in "EPNMASCDWRZTG" and len(f) == 1 and j == fp:
+        if f in "EPNMASCDWRZTGH" and len(f) == 1 and j == fp:
             out.append(f)
         elif pat == "allU":
             out.append("U")
@@ -57,6 +57,9 @@ def file_text(shape, j, kinds, formatted=False):
                 continue
             if kinds[i - 1] == "C":
                 decl += f'#[cfg_attr(windows, path = "bad{i}.rs")]\nmod f{i};\n'
+            elif kinds[i - 1] == "H":
+                decl += (f'#[cfg_attr(unix, path = "f{i}.rs")]\n'
+                         f'#[cfg_attr(windows, path = "f{i}.rs")]\nmod f{i};\n')
             elif kinds[i - 1] == "D":
                 decl += (f'#[cfg_attr(unix, path = "f{i}.rs")]\n'
                          f'#[cfg_attr(windows, path = "bad{i}.rs")]\nmod m{i};\n')
@@ -71,7 +74,7 @@ def file_text(shape, j, kinds, formatted=False):
         pre += f"cfg_if! {{\n    if #[cfg(unix)] {{\n        mod missing{j};\n    }}\n}}\n"
     if k == "S":
         return (f"#![rustfmt::skip]\n{decl}fn  k{j}( ){{}}\n").encode(), None
-    if k == "E":
+    if k in "EH":
         return (pre + f"fn k{j}() {{ let = ; }}\nfn  z( ){{}}\n").encode(), None
     if k == "Z":
         return b"", b"\n"
@@ -321,7 +324,7 @@ def observe(sc, layout, code, out, err):
     for r, shape in enumerate(roots):
         kinds = kinds_of(shape)
         failing = shape["fault"] in ("badtoml", "vermismatch", "missing", "dir") or \
-            any(k in "EPNMACDRG" for k in kinds)
+            any(k in "EPNMACDRGH" for k in kinds)
         if failing:
             continue
         for j, k in enumerate(kinds, 1):
